@@ -1204,10 +1204,20 @@ bool SPxLPBase<R>::readLPF(
                      unnamed = true;
                   else
                   {
-                     char name[16];
-                     spxSnprintf(name, 16, "C%d", rset.num());
+                     char name[32];
+                     spxSnprintf(name, 32, "C%d", rset.num());
+
+                     // the default name may have been given to another row explicitly
+                     for(int suffix = 1; rnames->has(name); suffix++)
+                        spxSnprintf(name, 32, "C%d_%d", rset.num(), suffix);
+
                      rnames->add(name);
                   }
+
+                  // a row name that is used twice, or two names in front of one row, would leave the name set with
+                  // another size than the row set
+                  if(rnames->num() != rset.num())
+                     goto syntax_error;
 
                   have_value = true;
                   val = 1.0;
@@ -1399,6 +1409,13 @@ bool SPxLPBase<R>::readLPF(
    }
 
    assert(isConsistent());
+
+   // a row name without a row (the file ends within a named constraint)
+   if(rnames->num() != rset.num())
+   {
+      finished = false;
+      goto syntax_error;
+   }
 
    addCols(cset);
    assert(isConsistent());
